@@ -119,25 +119,30 @@ CHECKS.update({
         ref="DESIGN.md 3/C16", note=B_NOTE),
     "C14": dict(
         cat="model_checking", engine="kani",
-        text=("PARTIAL (felt-deserialisation layer only): Kani harnesses over the real felt252_serde.rs / "
-              "felt252_vec_compression.rs mounted with include!: every component deserialiser, "
-              "version_id_from_felt252s and decompress return Ok/Err on arbitrary slices of <= 6 felts "
-              "(64-bit symbolic contents) without panic, overflow or out-of-bounds access, and "
-              "vec_with_bounded_capacity never reserves more than the remaining input. ProgramRegistry, "
-              "metadata computation and compile on mutated programs are NOT covered."),
+        text=("PARTIAL (scalar / id part of the felt-deserialisation layer only): Kani harnesses over the real "
+              "felt252_serde.rs mounted with include!: the deserialisers of usize, StatementIdx, "
+              "BranchTarget, VarId, VersionId and the generic Vec<T> deserialiser (instantiated at u64), "
+              "plus version_id_from_felt252s, return Ok/Err on arbitrary slices of <= 6 felts (64-bit "
+              "symbolic contents, symbolic length) without panic, overflow or out-of-bounds access, and "
+              "vec_with_bounded_capacity never reserves more than the remaining input. NOT covered (CBMC "
+              "runs out of memory, see DESIGN 7.2): decompress, the struct deserialisers (BranchInfo, "
+              "Invocation, Statement, FunctionSignature, ConcreteTypeInfo, GenericArg); NOT covered at "
+              "all: ProgramRegistry, metadata computation, compile on mutated programs."),
         technique="Kani/CBMC bounded model checking of the deserialisers on arbitrary short inputs",
         ref="DESIGN.md 3/C14", note=B_NOTE),
     "C18": dict(
         cat="model_checking", engine="kani",
-        text=("PARTIAL (felt252 layer only): deserialize(serialize(v)) == v and exact consumption for each "
-              "Felt252Serde component type, shapes concrete and small, contents symbolic. Text, JSON and "
-              "CASM-identity legs are NOT covered."),
+        text=("PARTIAL (scalar / id part of the felt252 layer only): deserialize(serialize(v)) == v and exact "
+              "consumption for usize, StatementIdx, BranchTarget (minus the documented usize::MAX "
+              "collision), the four id types, VersionId, GenericArg::{Type,UserFunc,Libfunc} and Vec<u64> "
+              "(2 elements), contents symbolic. NOT covered: struct round trips (CBMC memory), compress / "
+              "decompress, text, JSON and CASM-identity legs."),
         technique="Kani/CBMC bounded model checking of serialize/deserialize round trips",
         ref="DESIGN.md 3/C18", note=B_NOTE),
     "C19": dict(
         cat="model_checking", engine="kani",
         text=("PARTIAL (segment-length conjunct only): get_segment_lengths returns positive lengths that sum "
-              "to the bytecode length for every sorted list of <= 4 symbolic start offsets; FunctionInfo "
+              "to the bytecode length for every sorted list of <= 3 (quick) / 4 (thorough) symbolic start offsets; FunctionInfo "
               "accepts a statement only if all branch targets lie inside the function. All other conjuncts "
               "of the property are NOT covered."),
         technique="Kani/CBMC bounded model checking of contract_segmentation.rs kernels",
